@@ -1519,3 +1519,33 @@ M("c20-float-millis", "C20", "R4.millis-computed-exactly", "lambda_service.py",
   "        return (dt - _UNIX_EPOCH) // datetime.timedelta(milliseconds=1)", "        return int(dt.timestamp() * 1000)")
 M("c20-zero-millis-undecoded", "C20", "R4.json-reader-tests-presence", "lambda_service.py",
   '        if (ms := data_copy.get("StartTimestamp")) is not None:', '        if ms := data_copy.get("StartTimestamp"):')
+
+# ----------------------------------------------------------------------------- review-agent round h2
+M("c10-step-does-not-ask-orphan-state", "C10", "R6.resumed-operation-checks-first", "operation/step.py",
+  "\n    runs_user_code = True\n", "\n", desc="a resumed step no longer asks the orphan state before its function runs")
+M("c16-callback-asks-orphan-state", "C16", "R2.no-orphan-query-without-user-code", "operation/callback.py",
+  "    CRITICAL: Errors are deferred to Callback.result() for deterministic replay.",
+  "    CRITICAL: Errors are deferred to Callback.result() for deterministic replay.\n    \"\"\"\n\n    runs_user_code = True\n\n    \"\"\"",
+  desc="fix 6f.. reverted for callbacks: an open callback inside a re-traversed summarised context is rejected as orphaned work")
+M2("c16-every-resumed-operation-asks", "C16", "R2.no-orphan-query-without-user-code", [
+    {"file": "operation/base.py", "old": "                and self.runs_user_code\n", "new": ""}],
+   desc="the narrowing of the read-only orphan query reverted")
+M("c09-status-published-before-result", "C09", "R1.payload-published-before-status", "concurrency/models.py",
+  "        self._result = result\n        self._is_result_set = True\n        self._status = BranchStatus.COMPLETED\n",
+  "        self._status = BranchStatus.COMPLETED\n        self._result = result\n        self._is_result_set = True\n", desc="fix d1f73a6 reverted (complete)")
+M("c09-status-published-before-error", "C09", "R1.payload-published-before-status", "concurrency/models.py",
+  "        self._error = error\n        self._status = BranchStatus.FAILED\n", "        self._status = BranchStatus.FAILED\n        self._error = error\n", desc="fix d1f73a6 reverted (fail)")
+M("c09-benign-result-flag-order", "C09", "", "concurrency/models.py",
+  "        self._result = result\n        self._is_result_set = True\n        self._status = BranchStatus.COMPLETED\n",
+  "        self._is_result_set = True\n        self._result = result\n        self._status = BranchStatus.COMPLETED\n", expect="silent")
+M("c10-interrupted-step-consults-strategy-first", "C10", "R6.resumed-operation-checks-first", "operation/step.py",
+  """            self.state.raise_if_orphaned(
+                self.operation_identifier.operation_id,
+                self.operation_identifier.parent_id,
+            )
+            msg: str =""", "            msg: str =", desc="fix 0861339 reverted")
+M("c02-handler-input-from-first-page-only", "C02", "R6.handler-input-from-the-whole-history", "execution.py",
+  "            raw_input_payload = execution_state.get_execution_input_payload()\n", "            raw_input_payload = None\n", desc="fix reverted: the event comes from the first page only")
+M("c02-benign-input-read-from-operations-map", "C02", "", "execution.py",
+  "            raw_input_payload = execution_state.get_execution_input_payload()\n",
+  "            raw_input_payload = next((o.execution_details.input_payload for o in list(execution_state.operations.values()) if o.execution_details), None)\n", expect="silent")
